@@ -27,6 +27,9 @@ type C11Case struct {
 	// subscription, disconnected) or "live" (connected, with a will). Only
 	// with the user/password authenticator.
 	Victim string `json:"victim,omitempty"`
+	// Frag: offsets at which the bytes are cut into separate transport writes
+	// (TCP may deliver a packet in any segmentation).
+	Frag []int `json:"frag,omitempty"`
 }
 
 // verdict of the reference side for a first packet.
@@ -223,7 +226,18 @@ func runC11(c C11Case) c11result {
 	if c.Then == "packets" {
 		out = append(out, effectPackets()...)
 	}
-	at.SendAsync(out) // the broker may stop reading at any point
+	// the broker may stop reading at any point, so the writes are queued
+	prev := 0
+	for _, f := range c.Frag {
+		if f > prev && f < len(out) {
+			at.SendAsync(out[prev:f])
+			prev = f
+		}
+	}
+	if prev > 0 {
+		res.Classes = append(res.Classes, "first-packet-in-several-writes")
+	}
+	at.SendAsync(out[prev:])
 	if c.Then == "close" {
 		// give the handler a moment to take what it wants, then cut
 		at.Served(20 * time.Millisecond)
@@ -422,12 +436,19 @@ type connectSpec struct {
 	user   string
 	pass   string
 	origin string
+	will   int // length of the will message (0 = the default three bytes)
 }
 
 func (cs connectSpec) packet() *codec.Packet {
 	p := &codec.Packet{Type: codec.CONNECT, ProtoName: cs.name, Level: cs.level, ConnectFlags: cs.flags, KeepAlive: 60, ClientID: []byte(cs.id)}
 	if p.WillFlag() {
 		p.WillTopic, p.WillMessage = []byte("c11/will"), []byte("bye")
+		if cs.will > 0 {
+			p.WillMessage = make([]byte, cs.will)
+			for i := range p.WillMessage {
+				p.WillMessage[i] = byte('a' + i%26)
+			}
+		}
 	}
 	if p.UserFlag() {
 		p.Username = []byte(cs.user)
@@ -593,6 +614,7 @@ func TestC11Random(t *testing.T) {
 			id:    rapid.SampledFrom(append([]string{"x", "client42", "ABCDEFGHIJKLMNOPQRSTUVW"}, c11IDs...)).Draw(t, "id"),
 			user:  rapid.SampledFrom([]string{"user", "user", "other", ""}).Draw(t, "user"),
 			pass:  rapid.SampledFrom([]string{"pass", "pass", "wrong", ""}).Draw(t, "pass"),
+			will:  rapid.SampledFrom([]int{0, 0, 90, 150, 20000}).Draw(t, "willlen"),
 		}
 		if rapid.Bool().Draw(t, "sane-flags") {
 			cs.flags &= 2 | 4 | 8 | 32 | 64 | 128
@@ -628,7 +650,17 @@ func TestC11Random(t *testing.T) {
 				}
 			}
 		}
+		if cs.will > 0 && cs.flags&4 != 0 {
+			origin += fmt.Sprintf(" will-message=%d-bytes", cs.will)
+		}
 		c := C11Case{Auth: rapid.SampledFrom(c11Auths).Draw(t, "auth"), First: enc, Origin: origin, Then: "packets"}
+		if rapid.IntRange(0, 2).Draw(t, "fragmented") == 0 {
+			for i, n, at := 0, rapid.IntRange(1, 3).Draw(t, "nfrag"), 0; i < n; i++ {
+				at += rapid.SampledFrom([]int{1, 1, 2, 2, 3, 4, 7, 20}).Draw(t, "fragstep")
+				c.Frag = append(c.Frag, at)
+			}
+			c.Origin += fmt.Sprintf(" written in pieces cut at %v", c.Frag)
+		}
 		if c.Auth == fix.AuthUserPass && rapid.IntRange(0, 2).Draw(t, "victim") == 0 {
 			c.Victim = rapid.SampledFrom([]string{"stored", "live"}).Draw(t, "victimkind")
 		}
